@@ -1,10 +1,12 @@
 package c07
 
 import (
+	"fmt"
 	"os"
 	"path/filepath"
 	"sort"
 	"strings"
+	"unicode/utf8"
 
 	"verif/harness/core"
 )
@@ -118,6 +120,45 @@ func chunk(src string) (lead string, toks []tok) {
 		i = e
 	}
 	return
+}
+
+// bracketsBalanced is a necessary condition for acceptance that needs no
+// grammar: the parser consumes ')' ']' '}' only as the partner of an opener and
+// accepts only if all tokens were consumed, so an accepted text has properly
+// nested brackets outside strings and comments. applicable is false where the
+// chunker's view of string boundaries could differ from the lexer's
+// (backslashes, control characters, invalid UTF-8) - then nothing is judged.
+func bracketsBalanced(src string) (balanced bool, applicable bool, why string) {
+	if !utf8.ValidString(src) {
+		return true, false, ""
+	}
+	for i := 0; i < len(src); i++ {
+		c := src[i]
+		if c == '\\' || c >= 0x7f || c < ' ' && c != '\n' && c != '\t' && c != '\r' {
+			return true, false, ""
+		}
+	}
+	_, toks := chunk(src)
+	var st []byte
+	for i, t := range toks {
+		if len(t.text) != 1 {
+			continue
+		}
+		switch c := t.text[0]; c {
+		case '(', '[', '{':
+			st = append(st, c)
+		case ')', ']', '}':
+			want := map[byte]byte{')': '(', ']': '[', '}': '{'}[c]
+			if len(st) == 0 || st[len(st)-1] != want {
+				return false, true, fmt.Sprintf("closing %q (token %d) has no matching opener", c, i)
+			}
+			st = st[:len(st)-1]
+		}
+	}
+	if len(st) > 0 {
+		return false, true, fmt.Sprintf("%d opener(s) never closed", len(st))
+	}
+	return true, true, ""
 }
 
 func render(lead string, toks []tok) string {
